@@ -429,7 +429,7 @@ theorem irr_cmd (fuel : Nat) (ih : Irr fuel) :
   | setE on => simp only [execCmd]; exact rel_finishSimple' _ on (by exact cond_of_stack rfl hc) _
   | setM on => simp only [execCmd]; exact rel_finishSimple' _ e0 (by exact cond_of_stack rfl hc) _
   | unknown => simp only [execCmd]; exact rel_finishSimple' _ e0 (by exact cond_of_stack rfl hc) _
-  | absent w a => simp only [execCmd]; exact rel_finishSimple' _ e0 (by exact cond_of_stack rfl hc) _
+  | absent w r a => simp only [execCmd]; exact rel_finishSimple' _ e0 (by exact cond_of_stack rfl hc) _
   | tick c k =>
     simp only [execCmd]
     split <;> exact rel_finishSimple' _ e0 (by exact cond_of_stack rfl hc) _
